@@ -24,11 +24,20 @@ import (
 	"time"
 )
 
-const (
+const repoDir = "/repo"
+
+// verifDir is /verif, or the snapshot the wrapper script lives in (VERIF_ROOT, set by bin/check).
+var (
 	verifDir   = "/verif"
 	harnessDir = "/verif/harness"
-	repoDir    = "/repo"
 )
+
+func init() {
+	if r := os.Getenv("VERIF_ROOT"); r != "" {
+		verifDir = r
+		harnessDir = filepath.Join(r, "harness")
+	}
+}
 
 type tierCfg struct {
 	Checks int // rapid checks per shard
